@@ -223,10 +223,13 @@ func init() {
 		if err != nil {
 			return nil, err
 		}
-		ginsts := make([]any, len(a.GInsts))
-		for i, g := range a.GInsts {
-			if ginsts[i], err = buildAny(g); err != nil {
-				return nil, err
+		var ginsts []any // built up front only when instances alias the schema; otherwise after Resolve, as before
+		if len(a.AliasInst) > 0 {
+			ginsts = make([]any, len(a.GInsts))
+			for i, g := range a.GInsts {
+				if ginsts[i], err = buildAny(g); err != nil {
+					return nil, err
+				}
 			}
 		}
 		for _, al := range a.AliasInst {
@@ -325,7 +328,13 @@ func init() {
 		}
 		out["outcome"] = "resolved"
 		var vs []string
-		for _, v := range ginsts {
+		for i, g := range a.GInsts {
+			var v any
+			if ginsts != nil {
+				v = ginsts[i]
+			} else if v, err = buildAny(g); err != nil {
+				return nil, err
+			}
 			vs = append(vs, safeValidate(rs, v))
 			w := v
 			if applyOnce(rs, &w) == "panic" {
